@@ -111,7 +111,6 @@ Proof.
 Qed.
 
 (* ---------- literals ---------- *)
-Definition lit_of (z : Z) : bool * Z := (z <? 0, Z.abs z).
 
 Lemma s_not_eq : s_not = kw_not ++ [32].
 Proof. reflexivity. Qed.
